@@ -1241,6 +1241,7 @@ class ArithmeticExpression(Term):
     def get_sql(self, with_alias: bool = False, **kwargs: Any) -> str:
         left_op, right_op = [getattr(side, "operator", None) for side in [self.left, self.right]]
 
+        left_sql = self.left.get_sql(**kwargs)
         right_sql = self.right.get_sql(**kwargs)
         # A - -1 would read as a comment introducer
         right_parens = self.right_needs_parens(self.operator, right_op) or (
@@ -1248,9 +1249,7 @@ class ArithmeticExpression(Term):
         )
         arithmetic_sql = "{left}{operator}{right}".format(
             operator=self.operator.value,
-            left=("({})" if self.left_needs_parens(self.operator, left_op) else "{}").format(
-                self.left.get_sql(**kwargs)
-            ),
+            left=("({})" if self.left_needs_parens(self.operator, left_op) else "{}").format(left_sql),
             right=("({})" if right_parens else "{}").format(right_sql),
         )
 
